@@ -240,7 +240,7 @@ def mpo_case(ctx, idx, rng):
               'terminal': g.nid_terminal}
     dg = monitor.digest(g)
     dm = monitor.digest(opmap)
-    op = ptn.MPO.from_opgraph(qd, g, opmap, compute_nid_map=with_map)
+    op = ptn.MPO.from_opgraph(qd, g, opmap, compute_nid_map=(with_map, np.bool_(with_map), int(with_map))[(idx // 2) % 3])
     ctx.ok('from_opgraph.graph-untouched', monitor.digest(g) == dg and monitor.digest(opmap) == dm, 'from_opgraph modified the graph or operator map', detail)
     inv = refs.mpo_invariant(op)
     if not ctx.ok('from_opgraph.block-sparse', inv is None, str(inv), detail):
